@@ -133,6 +133,11 @@ func checkC08(p *Prog, r *Report) {
 			return nil
 		}
 		pre, post := cbFunc(visit.Call.Args[1]), cbFunc(visit.Call.Args[2])
+		if c, isNil := visit.Call.Args[2].(*ssa.Const); isNil && c.Value == nil && pre != nil {
+			// one callback does both: packages.Visit calls pre exactly once per package, so recording there
+			// (under the lookup hit) is as good as recording on the way back
+			post = pre
+		}
 		if pre == nil || post == nil {
 			r.Fail("R08b", "getFfi callbacks", instrPos(visit), "pre/post callbacks are not function literals", "")
 			return false
